@@ -1,12 +1,14 @@
 import Driver.Util
 import Driver.C15
 import Driver.C16
+import Driver.C08
 open Lean
 
 def dispatch (prop : String) (input : Json) : Except String Json :=
   match prop with
   | "C15" => Driver.C15.handle input
   | "C16" => Driver.C16.handle input
+  | "C08" => Driver.C08.handle input
   | p => .error s!"no model for {p}"
 
 def handleLine (line : String) : String :=
